@@ -96,6 +96,11 @@ def make_config(rng, nt, ns, cache_mode, twins, repeats):
     raw = {"domain": dom, "towers": towers, "met": met,
            "solver": {"closure": str(rng.choice(["MOST", "MOSTM"])), "footprint": True, "precision": str(rng.choice(["single", "double"]))},
            "parallel": {"use_cache": cache_mode != "off", "max_workers": 2}}
+    if rng.random() < 0.3:
+        # concentration (dispersion) runs of the built-in source placed off-centre
+        raw["solver"]["footprint"] = False
+        raw["solver"]["src_loc"] = [float(rng.uniform(0.15, 0.85) * xmax), float(rng.uniform(0.15, 0.85) * ymax)]
+        raw["solver"]["surface_flux_shape"] = str(rng.choice(["diamond", "circle", "point"]))
     raw["_timestamps_kind"] = tk
     cfg = parse_config_dict({k: v for k, v in raw.items() if not k.startswith("_")})
     return cfg, raw
@@ -203,7 +208,7 @@ def run_case(case):
     buckets = {}
     orders = set()
     desc = dict(shape=(nt, ns), cache=cache_mode, twins=twins, repeated_met=repeats, parent_threads=parent_threads,
-                precision=raw["solver"]["precision"], closure=raw["solver"]["closure"])
+                precision=raw["solver"]["precision"], closure=raw["solver"]["closure"], footprint=raw["solver"]["footprint"])
     warnings.simplefilter("ignore")
     logf = os.path.abspath(f"c14_log_{case['idx']}.jsonl")
 
@@ -387,6 +392,7 @@ def run_case(case):
     buckets[f"timestamps:{raw['_timestamps_kind']}"] = 1
     buckets.update({f"shape:{nt}x{ns}": 1, f"cache:{cache_mode}": 1, f"parent_threads:{parent_threads}": 1})
     buckets[f"towers:{twins}"] = 1
+    buckets["mode:footprint" if raw["solver"]["footprint"] else "mode:dispersion_off_centre_source"] = 1
     if repeats:
         buckets["repeated_met"] = 1
     counters["distinct_completion_orders"] = len(orders)
